@@ -155,24 +155,33 @@ package otp
 // ---------------------------------------------------------------------------
 // OCRA (RFC 6287)
 
-//@ macro usable(c) = 4 <= c.Digits && c.Digits <= 10 && c.Hash <= 2 && (c.IncludePassword ==> c.PasswordHash != 0) &&
-//@ |   (c.IncludeTimestamp ==> c.TimeStep > 0) && (c.IncludeChallenge ==> c.Challenge != 0)
+// explicit-field forms (also used by the REST contracts, where the configuration comes from JSON members)
+//@ macro usablex(digits, hash, iP, pwhash, iT, tstep, iQ, chfmt) = 4 <= digits && digits <= 10 && hash <= 2 && (iP ==> pwhash != 0) &&
+//@ |   (iT ==> tstep > 0) && (iQ ==> chfmt != 0)
+//@ macro usable(c) = usablex(c.Digits, c.Hash, c.IncludePassword, c.PasswordHash, c.IncludeTimestamp, c.TimeStep, c.IncludeChallenge, c.Challenge)
 
-//@ macro admissible(c, in) = (c.IncludeCounter ==> len(in.Counter) == 8) &&
-//@ |   (c.IncludeChallenge ==> minq(c.Challenge) <= len(in.Challenge) && len(in.Challenge) <= 128) &&
-//@ |   (c.IncludePassword ==> len(in.Password) > 0 && (c.PasswordHash == 1 ==> len(in.Password) == 20) &&
-//@ |        (c.PasswordHash == 2 ==> len(in.Password) == 32) && (c.PasswordHash == 3 ==> len(in.Password) == 64)) &&
-//@ |   (c.IncludeSession ==> len(in.SessionInfo) <= 128) &&
-//@ |   (c.IncludeTimestamp ==> len(in.Timestamp) == 8)
+//@ macro admx(iC, iQ, iP, iS, iT, chfmt, pwhash, lcn, lch, lpw, lse, lts) = (iC ==> lcn == 8) &&
+//@ |   (iQ ==> minq(chfmt) <= lch && lch <= 128) &&
+//@ |   (iP ==> lpw > 0 && (pwhash == 1 ==> lpw == 20) && (pwhash == 2 ==> lpw == 32) && (pwhash == 3 ==> lpw == 64)) &&
+//@ |   (iS ==> lse <= 128) && (iT ==> lts == 8)
+//@ macro admissible(c, in) = admx(c.IncludeCounter, c.IncludeChallenge, c.IncludePassword, c.IncludeSession, c.IncludeTimestamp, c.Challenge, c.PasswordHash,
+//@ |   len(in.Counter), len(in.Challenge), len(in.Password), len(in.SessionInfo), len(in.Timestamp))
 
 // the message layout of RFC 6287 section 5.1/6: suite, 0x00, then the selected fields in fixed order
 // (built up field by field, left-nested as the code does)
-//@ macro ocram0(c, in) = cat(c.Raw, single(0))
-//@ macro ocram1(c, in) = cat(ocram0(c, in), c.IncludeCounter ? padr(view(in.Counter), 8) : "")
-//@ macro ocram2(c, in) = cat(ocram1(c, in), c.IncludeChallenge ? padr(view(in.Challenge), 128) : "")
-//@ macro ocram3(c, in) = cat(ocram2(c, in), c.IncludePassword ? view(in.Password) : "")
-//@ macro ocram4(c, in) = cat(ocram3(c, in), c.IncludeSession ? padr(view(in.SessionInfo), 128) : "")
-//@ macro ocramsg(c, in) = cat(ocram4(c, in), c.IncludeTimestamp ? padr(view(in.Timestamp), 8) : "")
+//@ macro ocm0(raw) = cat(raw, single(0))
+//@ macro ocm1(raw, iC, cn) = cat(ocm0(raw), iC ? padr(cn, 8) : "")
+//@ macro ocm2(raw, iC, iQ, cn, ch) = cat(ocm1(raw, iC, cn), iQ ? padr(ch, 128) : "")
+//@ macro ocm3(raw, iC, iQ, iP, cn, ch, pw) = cat(ocm2(raw, iC, iQ, cn, ch), iP ? pw : "")
+//@ macro ocm4(raw, iC, iQ, iP, iS, cn, ch, pw, se) = cat(ocm3(raw, iC, iQ, iP, cn, ch, pw), iS ? padr(se, 128) : "")
+//@ macro ocm5(raw, iC, iQ, iP, iS, iT, cn, ch, pw, se, ts) = cat(ocm4(raw, iC, iQ, iP, iS, cn, ch, pw, se), iT ? padr(ts, 8) : "")
+//@ macro ocram0(c, in) = ocm0(c.Raw)
+//@ macro ocram1(c, in) = ocm1(c.Raw, c.IncludeCounter, view(in.Counter))
+//@ macro ocram2(c, in) = ocm2(c.Raw, c.IncludeCounter, c.IncludeChallenge, view(in.Counter), view(in.Challenge))
+//@ macro ocram3(c, in) = ocm3(c.Raw, c.IncludeCounter, c.IncludeChallenge, c.IncludePassword, view(in.Counter), view(in.Challenge), view(in.Password))
+//@ macro ocram4(c, in) = ocm4(c.Raw, c.IncludeCounter, c.IncludeChallenge, c.IncludePassword, c.IncludeSession, view(in.Counter), view(in.Challenge), view(in.Password), view(in.SessionInfo))
+//@ macro ocramsg(c, in) = ocm5(c.Raw, c.IncludeCounter, c.IncludeChallenge, c.IncludePassword, c.IncludeSession, c.IncludeTimestamp,
+//@ |   view(in.Counter), view(in.Challenge), view(in.Password), view(in.SessionInfo), view(in.Timestamp))
 
 //@ func otp.challengeLength(format) (r)
 //@   ensures r == minq(format)
@@ -293,7 +302,8 @@ package otp
 //@   ensures[val] err == nil ==> view(r) == hexdec(rpad0(upper(bighex(s)), 256))
 //@   ensures[reject] !isdecbig(s) ==> err != nil && r == nil
 
-//@ macro hexfield(arg, f) = (arg == "" ==> f == nil) && (arg != "" ==> view(f) == hexdec(arg))
+//@ macro hexv(s) = s == "" ? "" : hexdec(s)
+//@ macro hexfield(arg, f) = (arg == "" ==> f == nil) && view(f) == hexv(arg)
 //@ func otp.HexInputToOCRA(counter, challenge, password, sessionInfo, timestamp) (in, err)
 //@   let allok = (counter == "" || ishex(counter)) && (challenge == "" || ishex(challenge)) && (password == "" || ishex(password)) &&
 //@ |    (sessionInfo == "" || ishex(sessionInfo)) && (timestamp == "" || ishex(timestamp))
